@@ -6,7 +6,7 @@ from lib.sut import CasadiEngine, cs, np
 class Stepped:
     """A network stepped symbolically with a CasADi engine; to_function can be called repeatedly."""
 
-    def __init__(self, spec, sym="SX", opts=(), overrides=None, par_overrides=None, built=None, init=None):
+    def __init__(self, spec, sym="SX", opts=(), overrides=None, par_overrides=None, built=None, init=None, restep=False):
         self.spec = spec
         self.net, self.els, self.nodes = built or S.build(spec, overrides)
         self.eng = CasadiEngine(sym)
@@ -31,7 +31,18 @@ class Stepped:
                     d[var] = x
                     self.held[(i, var)] = x
                 ic[self.els[i]] = d
-        self.net.step(init_conditions=ic, engine=self.eng, **S.opts_kwargs(opts), **self.pars)
+        if restep:
+            # variables are created by a first full step with the plain numbers; then every element is stepped
+            # again through the element-level API (no re-initialisation) with the actual (symbolic) parameters
+            first = {k: (v * 1.37 if isinstance(v, float) and k in spec["pars"] else v) for k, v in S.pars_kwargs(spec).items()}
+            self.net.step(init_conditions=ic, engine=self.eng, **S.opts_kwargs(opts), **first)  # other numbers: nothing of this step may survive
+            flags = {name: (name in (opts or ())) for name in S.OPT_NAMES}
+            for o in self.net.origins:
+                o.step(net=self.net, engine=self.eng, **flags, **self.pars)
+            for _, _, l in self.net.links:
+                l.step(net=self.net, engine=self.eng, **flags, **self.pars)
+        else:
+            self.net.step(init_conditions=ic, engine=self.eng, **S.opts_kwargs(opts), **self.pars)
 
     def to_function(self, compact=0, more_out=False, parameters=None):
         # a parameter declared under a key that is also a model-parameter name (e.g. "T") is forwarded by
